@@ -7,6 +7,7 @@ observables as the direct aggregation, provided one round trip preserves observa
 what C05 establishes for the lcov writer/reader.
 -/
 import GrcovModel.Lemmas.LcovShards
+import GrcovModel.Props.C06Cli
 namespace Grcov.Props.C06
 open Grcov AList Grcov.Props.C01 Grcov.Lcov
 
